@@ -18,13 +18,12 @@ Decided:
               seek/rewind on a File in the same function; reviewed exceptions keyed by function (a freshly opened
               handle). Positional reads (read_at / read_exact_at) carry their own offset and are outside the rule.
 Not decided: byte equality of reads with puts (values), normalisation of text."""
-from . import lib
+from . import lib, effects
 from .facts import Place, op_place
 
 STD_READS = ('read', 'read_exact', 'read_to_end', 'read_to_string', 'read_buf', 'read_vectored')
 UNPOSITIONED_OK = {
     'Memvid::open_locked': 'first read of a handle opened a few lines above (cursor 0): the header',
-    'models::compute_sha256_hex': 'hashes a model file it has just opened, start to end (not the memory file)',
 }
 
 
@@ -34,9 +33,16 @@ def cursor_discipline(ctx, F):
     for f in sorted(F.fns.values(), key=lambda x: x.path):
         if f.r.get('derive'):
             continue
-        rs = [c for c in f.calls() if c.name in STD_READS and c.args and 'fs::File' in (c.self_ty() or '') and (c.key.startswith('Read::') or ' as Read>' in c.key or ' as std::io::Read>' in c.key)]
-        if not rs:
-            continue
+        rs = []
+        for c in f.calls():
+            if c.name in STD_READS and c.args and 'fs::File' in (c.self_ty() or '') and (c.key.startswith('Read::') or ' as Read>' in c.key or ' as std::io::Read>' in c.key):
+                # in scope: handles that can share their cursor - the memory file's own handle, a field of a reader object,
+                # or anything obtained through try_clone. A file the function (or its caller) opened for itself and reads
+                # front to back has a private cursor and is out of scope.
+                sl = lib.slice_back(f, c.args[:1], through_calls=True, at=(c.bb, None))
+                shared = bool(sl.fields & effects.M_FIELDS) or any(o in ('BlobReader', 'BlobSource', 'Memvid', 'EmbeddedWal') for o, _ in sl.fields if o) or any(x.name == 'try_clone' for x in sl.calls)
+                if shared or f.key in UNPOSITIONED_OK:
+                    rs.append(c)
         seeks = [c for c in f.calls() if c.name in ('seek', 'rewind') and c.args and 'fs::File' in (c.self_ty() or '')]
         ctx.touch(f, len(rs) + len(seeks))
         for r in rs:
@@ -49,7 +55,7 @@ def cursor_discipline(ctx, F):
             else:
                 ctx.bad('PAIR-C07e', f, '%s on a File without positioning it in this function: the cursor is shared with every clone of the handle (Memvid\'s own reads, other readers), '
                         'so the bytes returned depend on what else touched the file' % r.name, line=r.line, sink=r.name, detail='read-at-unknown-cursor')
-    ctx.floor('PAIR-C07e', n, 15, 'std Read calls on File handles')
+    ctx.floor('PAIR-C07e', n, 10, 'std Read calls on File handles that can share their cursor')
 
 
 INVERSE = {'Plain': (None, None), 'Zstd': ('zstd::encode_all', 'zstd::decode_all')}
